@@ -33,6 +33,12 @@ FIXED_TREE = {
     "z.zip": {"t": "z", "members": [{"n": "in/", "mode": 0o40755}, {"n": "in/m.txt", "c": "zipped"}]},
     "big.bin": {"t": "f", "size": 3000000},
     "empty": {"t": "d", "ch": {}},
+    # names that promise a media format and are something else (media columns open them by extension)
+    "dir.svg": {"t": "d", "ch": {}},
+    "dang.svg": {"t": "l", "to": "nowhere"},
+    "bin.svg": {"t": "f", "c": "\udcff\udcfe<svg"},
+    "ok.svg": {"t": "f", "c": "<svg width=\"10\" height=\"20\"></svg>"},
+    "empty.wav": {"t": "f", "c": ""}, "dir.mkv": {"t": "d", "ch": {}}, "x.mp3": {"t": "f", "c": "ID3"}, "e.jpg": {"t": "f", "c": ""},
     "sub": {"t": "d", "ch": {
         "c.txt": {"t": "f", "c": "ccc"},
         "d.rs": {"t": "f", "c": "fn main() {}\n"},
@@ -350,6 +356,12 @@ def enumerate_cases(tier):
     for argv in [["name from", "r\udcff"], ["\udcff"], ["name", "from", ".", "where", "name", "=", "\udcff"], ["name from . where name = '\udcc3('"],
                  ["-c", "\udcff.toml", "name from ."], ["name", "\udcfe"]]:
         cases.append({"cls": "i", "argv": argv, "expect2": False})
+    # nesting far beyond anything written by hand: rejected or evaluated, never a stack overflow
+    for n in (600, 3000, 10000):
+        cases.append({"cls": "i", "argv": ["name from . where " + "(" * n + "size > 1" + ")" * n], "expect2": False})
+        cases.append({"cls": "i", "argv": ["lower(" * n + "name" + ")" * n + " from ."], "expect2": False})
+        cases.append({"cls": "i", "argv": ["name from . where " + "{" * n + "size > 1"], "expect2": True})
+    cases.append({"cls": "i", "argv": ["name from . where " + "not " * 30000 + "is_dir"], "expect2": False})
     # a bracket opened right after a function word and never closed; a `not` with nothing to negate
     for f in ["lower", "length", "concat", "abs", "year", "min"]:
         for t in ["%s( from .", "name, %s(", "name, %s(( from .", "name, %s{ from .", "name from . where size > %s(",
